@@ -2,7 +2,7 @@
     (enumerate / take(limit) / skip(skip + fast_forward + rank) / step_by(world_size)),
     delivered streams, and transparency of the threaded stages. *)
 From Coq Require Import Sorting.Sorted.
-From TU Require Import Base C08_Model C08_Proofs Pipe_Model Pipe_Proofs Pipe_Proofs2 Pipe_Proofs3 C05_Model C05_Proofs C09_Model C09_Proofs.
+From TU Require Import Base C08_Model C08_Proofs C08_Check Pipe_Model Pipe_Proofs Pipe_Proofs2 Pipe_Proofs3 C05_Model C05_Proofs C09_Model C09_Proofs.
 
 (** which global indices a rank selects *)
 Theorem sel_mem : forall lim skip ff rank W N i, 1 <= W ->
@@ -80,6 +80,13 @@ Theorem buffered_stage_transparent : forall sof n cap tr s,
   (forall l, l <> BDrop -> bstep sof s l = None) -> bout s = seq 0 n.
 Proof. intros sof n cap tr s H Hd Hno. apply (buf_terminal_top sof n cap tr s H Hd Hno). Qed.
 Print Assumptions buffered_stage_transparent.
+
+(** The executable statement evaluated on every implementation output (per-rank streams disjoint
+    with union = single-process stream, this rank's stream = the positions it owns, resumed stream,
+    limit/skip split, flags) holds of the model's own output whenever the world size is >= 1. *)
+Theorem check_run : forall v, 1 <= v_nat (v_nth 7 v) -> check_C08 v (run_C08 v) = true.
+Proof. exact check_run_l. Qed.
+Print Assumptions check_run.
 
 (** Non-vacuity / sanity: 3 ranks over 10 items, skip 1, limit 9 *)
 Example sel_example :
